@@ -901,7 +901,10 @@ pub fn oracle(_c: &Corpus, seed: u64, tier: &str) -> Vec<Report> {
     let mut distinct = BTreeSet::new();
     type Ctx = (&'static str, fn(&dyn Dialect, &str) -> G<Result<DataType, String>>);
     let ctxs: [Ctx; 3] = [("alone", parse_alone), ("column", parse_column), ("cast", parse_cast)];
-    for (t, homes) in &values {
+    // shortest prints first, so that the first example of every signature is a small one
+    let mut ordered: Vec<(&DataType, &BTreeSet<usize>)> = values.iter().collect();
+    ordered.sort_by_key(|(t, _)| guard(|| t.to_string()).val_or("").len());
+    for (t, homes) in ordered {
         let s = match guard(|| t.to_string()) {
             G::Val(s) => s,
             G::Panic(m) => { r.panic(ds[*homes.iter().next().unwrap()].0, Opts::DEFAULT, &dt_sexp(t), m); continue }
